@@ -21,6 +21,6 @@ pub fn vx_assert_or_diverge(c: bool)
     ensures c,
 { assert!(c) }
 
-// canaries of must-panic variants: the diverging helpers become no-ops and the file must be rejected.
-pub fn vx_nop() { }
-pub fn vx_nop_b(c: bool) { }
+// canaries of must-panic variants: body replaced by an arbitrary return value; must be rejected.
+#[verifier::external_body]
+pub fn vx_any<T>() -> T { unimplemented!() }
